@@ -1,7 +1,7 @@
 (* C06 — Every date the API hands out is the calendar's canonical date for its JDN. *)
 From JV Require Import Sem Gen Spec SpecX.
-From JV.Hand Require Import Names Text Order.
-From JV.Proofs Require Import SpecFacts Cal Core CoreOrder Canon AtJdn.
+From JV.Hand Require Import Names Text Order Iter Sys Interop.
+From JV.Proofs Require Import SpecFacts Cal Core CoreOrder Canon AtJdn InteropProofs IterCore Canon2.
 Import ListNotations.
 Open Scope Z_scope.
 
@@ -70,4 +70,30 @@ Print Assumptions C06_cmp_eq_hash.
 (* non-vacuity: a history across the 1582 gap and back, through text and another calendar *)
 Example C06_ex : exists d d', Calendar_at_jdn (cal_of (CR 2299161)) 2299160 = Ret d /\
   hrun d [HSucc; HText; HConvert CJ; HPred; HConvert (CR 2299161); HOrd; HNth 5; HTextAlt] = Ret d' /\ Date_f_jdn d' = 2299161 /\ Date_f_day d' = 15.
+Proof. eexists _, _. split; [vm_compute; reflexivity|]. split; [vm_compute; reflexivity|split; reflexivity]. Qed.
+
+(* ---- the producers and steps that are not const fn (hand models): system time, chrono / time, iterator items *)
+Theorem C06_other_producers : forall c, ValidCal c ->
+  (forall before secs nanos, 0 <= secs -> 0 <= nanos < nanos_per_sec ->
+     exists r, at_system_time_model (cal_of c) before secs nanos = Ret r /\ forall x s, r = Ok (x, s) -> Canonical x) /\
+  (forall ymin ymax f, RangeOk ymin ymax -> f_valid ymin ymax f = true ->
+     exists d, from_foreign f = Ret d /\ Canonical d /\ Date_f_calendar d = cal_of CG) /\
+  (forall j x, day_or_none c j = Some x -> Canonical x /\ Date_f_jdn x = j /\ Date_f_calendar x = cal_of c) /\
+  (forall y m, 0 < month_count c y (Month_discr m) -> Forall (fun x => Canonical x /\ Date_f_calendar x = cal_of c) (dates_list c y m)).
+Proof.
+  intros c V. split; [intros; apply canonical_at_system_time; assumption|]. split; [intros; eapply canonical_from_foreign; eassumption|].
+  split; [intros j x; apply canonical_day_or_none; exact V|intros y m; apply canonical_dates_list; exact V].
+Qed.
+Print Assumptions C06_other_producers.
+
+(* histories over the enlarged operation set: everything of C06_histories, plus a trip through chrono::NaiveDate or
+   time::Date and back (absent when out of the foreign range), plus taking the n-th item of later() / and_later()
+   / earlier() / and_earlier() started at the current date; any length *)
+Theorem C06_histories_all : forall ops d, Canonical d -> Forall xop_ok ops -> exists d', xrun d ops = Ret d' /\ Canonical d'.
+Proof. exact xhistories_canonical. Qed.
+Print Assumptions C06_histories_all.
+
+Example C06_all_ex : exists d d', Calendar_at_jdn (cal_of (CR 2299161)) 2299160 = Ret d /\
+  xrun d [XLater 0; XBase HText; XChrono; XEarlier 1; XBase (HConvert CJ); XTime; XAndLater 3] = Ret d' /\
+  Date_f_jdn d' = 2299162 /\ Date_f_calendar d' = cal_of CG.
 Proof. eexists _, _. split; [vm_compute; reflexivity|]. split; [vm_compute; reflexivity|split; reflexivity]. Qed.
